@@ -4,6 +4,7 @@ import LhasaV.Lemmas.LhNewCmd
 import LhasaV.Lemmas.LhNewFmt
 import LhasaV.Lemmas.LhNewRT
 import LhasaV.Model.Decoders
+import LhasaV.Lemmas.GenInit
 /-!
 # C01 — LHA static-Huffman methods (lh4 lh5 lh6 lh7 lhx lk7) decode every valid stream exactly
 
@@ -166,5 +167,21 @@ example : (Wrap.reads (Dec.total (LhNew.dec LhNew.lh5)) [3, 0, 100]
       { inner := .ok (LhNew.init LhNew.lh5 { data := (serialise (LhNewRT.fmtOf LhNew.lh5) LhNewRT.exLh5).toArray, chunk := 1 }),
         length := 8, blockSize := 4096 }).1.1 = (expand LhNewRT.exLh5).take (min ([3, 0, 100] : List Nat).sum 8) :=
   lhnew_decode_serialise LhNew.lh5 LhNewRT.rtParams_lh5 LhNewRT.exLh5 LhNewRT.exLh5_wf 1 8 4096 [3, 0, 100]
+
+/-- **Translator tie for the initial state**: `lha_lh_new_init` of the working tree is RUN for each of the five parameter sets on
+zeroed memory and what it built is dumped into `Gen/Decoders.lean` on every run: a ring of spaces, write position 0, no block open,
+every tree element a bare leaf – the state the model's `init` builds, for every source. -/
+theorem lhnew_init_matches_source (src : Src) :
+    (∀ p ∈ [LhNew.lh5, LhNew.lh6, LhNew.lh7, LhNew.lhx, LhNew.lk7],
+      (LhNew.init p src).ring = Array.replicate p.ringCap 0x20 ∧ (LhNew.init p src).pos = 0 ∧ (LhNew.init p src).blockRemaining = 0
+      ∧ (LhNew.init p src).codeTree = Array.replicate p.codeTreeCap p.leafBit
+      ∧ (LhNew.init p src).offsetTree = Array.replicate p.offsetTreeCap p.leafBit
+      ∧ (LhNew.init p src).tempTree = Array.replicate p.tempTreeCap p.leafBit)
+    ∧ [Gen.lh5InitOk, Gen.lh6InitOk, Gen.lh7InitOk, Gen.lhxInitOk, Gen.lk7InitOk] = [1, 1, 1, 1, 1]
+    ∧ [Gen.lh5InitRingAllSpaces, Gen.lh6InitRingAllSpaces, Gen.lh7InitRingAllSpaces, Gen.lhxInitRingAllSpaces, Gen.lk7InitRingAllSpaces] = [1, 1, 1, 1, 1]
+    ∧ [Gen.lh5InitRingPos, Gen.lh6InitRingPos, Gen.lh7InitRingPos, Gen.lhxInitRingPos, Gen.lk7InitRingPos] = [0, 0, 0, 0, 0]
+    ∧ [Gen.lh5InitBlockRemaining, Gen.lh6InitBlockRemaining, Gen.lh7InitBlockRemaining, Gen.lhxInitBlockRemaining, Gen.lk7InitBlockRemaining] = [0, 0, 0, 0, 0]
+    ∧ [Gen.lh5InitTreesAllLeaf, Gen.lh6InitTreesAllLeaf, Gen.lh7InitTreesAllLeaf, Gen.lhxInitTreesAllLeaf, Gen.lk7InitTreesAllLeaf] = [1, 1, 1, 1, 1] :=
+  GenInit.lhnew_init_matches_source src
 
 end LhasaV.Props.C01
